@@ -62,6 +62,7 @@ static vf_errlog elog;
    system is over-determined */
 static int g_net = 2;	/* error-network family member used by scenarios */
 static double g_slope_nf, g_slope_tr;	/* frequency dependence of sigma */
+static int g_predeclare;	/* run_cal: a different model is declared first */
 
 static int make_scenario(cs_scenario *sc, vnacal_type_t type, int rows,
 	int cols, int recipe, int nf)
@@ -158,6 +159,19 @@ static void run_cal(cs_scenario *sc, bool model, int gk, double snf,
 	    double x = (n > 1 && f1 > f0) ? (f - f0) / (f1 - f0) : 0.0;
 	    nfv[i] = snf * (1.0 + g_slope_nf * x);
 	    trv[i] = str * (1.0 + g_slope_tr * x);
+	}
+	if (g_predeclare) {
+	    /* another model was declared first (ten times the floor and a
+	       large tracking part); the second declaration replaces it */
+	    double nf0[8], tr0[8];
+	    for (int i = 0; i < n; ++i) {
+		nf0[i] = 10.0 * nfv[i];
+		tr0[i] = 0.1;
+	    }
+	    if (vnacal_new_set_m_error(vnp, fp, n, nf0, tr0) != 0) {
+		o->rc = -6;
+		goto out;
+	    }
 	}
 	if (vnacal_new_set_m_error(vnp, fp, n, nfv, str > 0 ? trv : NULL)
 		!= 0) {
@@ -308,6 +322,22 @@ static void run_det(int tier, long idx, vf_result *r)
 	vf_note("step: standard %d of %d displaced", k + 1, sc.nstd);
 	run_cal(&sc, true, gk, snf, str, false, 0, &bad, r);
 	vf_note("   -> rc %d errno %d %s", bad.rc, bad.err_no, bad.msg);
+	{
+	    /* declaring the model a second time replaces the first
+	       declaration completely: same verdict */
+	    static res_t again;
+	    g_predeclare = 1;
+	    run_cal(&sc, true, gk, snf, str, false, 0, &again, r);
+	    g_predeclare = 0;
+	    if (again.rc != bad.rc || again.err_no != bad.err_no) {
+		snprintf(sig, sizeof(sig), "redeclare-differs:%s", tname);
+		vf_fail(r, sig, "standard %d displaced by 100 sigma: model "
+			"declared once gives rc %d errno %d, the same model "
+			"declared after another one gives rc %d errno %d "
+			"(sigma_nf %g, sigma_tr %g)", k + 1, bad.rc,
+			bad.err_no, again.rc, again.err_no, snf, str);
+	    }
+	}
 	sc.displace_id = 0;
 	if (bad.rc == -1) {
 	    ++rejected;
@@ -345,6 +375,7 @@ static void run_det(int tier, long idx, vf_result *r)
 	    rejected == sc.nstd ? "all" : rejected == 0 ? "none" :
 	    2 * rejected >= sc.nstd ? "most" : "few");
 done:
+    g_predeclare = 0;
     vf_exec_end(r, mark);
 }
 
